@@ -15,7 +15,9 @@ CLAIM = ("Grammars are assembled around one planted located mistake or warning (
          "`<path>:<line>:<col>:` prefix, the source line shown and the start of the underline on stderr of the real binary must be the "
          "line / byte column / text computed from the recorded offset. Every span of the parse tree and every parse-error location is "
          "compared exactly with the Lean parser model (Model/Parse.lean: positions as nom_locate tracks them) on every case. The theorem "
-         "span_sound over the parser model is open.")
+         "span_sound over the parser model is open. Proved over the position bookkeeping of the parser model (Props/C13.lean): adv_position / "
+         "init_position — after consuming any text the location is (line + line feeds consumed, 1 + bytes after the last line feed) — "
+         "plus additivity, monotonicity and fromRange_start.")
 NOTE = ("Columns are byte columns (nom_locate's get_column), as DESIGN.md §3 C13 states; non-ASCII text is only placed on lines before the "
         "planted token. Trusted: the generator's offset bookkeeping, the regex reading diagnostics. Open: span_sound / diag_points_at.")
 TECHNIQUE = "planted offsets against the real binary's diagnostics + exact span correspondence with the Lean parser model"
